@@ -445,6 +445,31 @@ func subReadResults() mon.Sub {
 					}
 					hs = append(hs, held{what: "ReadMessage control payload", get: func() string { return string(ms[0].Payload) }, want: reason},
 						held{what: "ReadMessage payload", get: func() string { return string(ms[1].Payload) }, want: string(payload)})
+					// the application answers the control message it was handed (and keeps it): the
+					// reply is a pong echoing the payload, the message it holds stays what it was
+					var reply bytes.Buffer
+					switch k / 2 % 3 {
+					case 0:
+						err = wsutil.HandleControlMessage(&reply, stateOf(side), ms[0])
+					case 1:
+						if side == ref.SideServer {
+							err = wsutil.HandleClientControlMessage(&reply, ms[0])
+						} else {
+							err = wsutil.HandleServerControlMessage(&reply, ms[0])
+						}
+					case 2:
+						err = wsutil.ControlHandler{DisableSrcCiphering: true, Src: bytes.NewReader(ms[0].Payload), Dst: &reply, State: stateOf(side)}.Handle(ws.Header{Fin: true, OpCode: ms[0].OpCode, Length: int64(len(ms[0].Payload))})
+					}
+					if len(reason) > 0 {
+						pf, _, bad := ref.ParseFrames(reply.Bytes())
+						if err != nil || bad != "" || len(pf) != 1 || pf[0].H.Op != ref.OpPong || string(pf[0].Payload) != reason {
+							c.Fail("aliasing/control-reply", fmt.Sprintf("answering a held ping of %d bytes: err=%v, reply % x", len(reason), err, reply.Bytes()), map[string]interface{}{"side": side, "handler": k / 2 % 3})
+							return
+						}
+					}
+					if !recheck(c, hs, "answering the held control message") {
+						return
+					}
 				case 2: // ParseCloseFrameData / ReadFrame
 					ch := xport.NewChunker(frames[3].Encode(), plans[k%len(plans)])
 					f, err := ws.ReadFrame(ch)
